@@ -1,7 +1,9 @@
 """Shared oracle machinery for the sync properties C09, C10, C11: run scenarios, judge, classify failures with the
-extracted Coq classifier (SyncSpec.classify_target) from the recorded law instances."""
+extracted Coq classifiers (SyncSpec2.classify_install_r / classify_target_r / classify_frame_r / classify_raise_r, which
+return the class of SyncSpec where there is one) from the recorded law instances."""
 import ast
 import collections
+import random
 
 from common import Sym, dumps, loads, opt, run_model, unhx
 import sync_lab as L
@@ -25,6 +27,13 @@ ABSORBS = {
     "other-docstring-reformatted": {"docstrings-only"},
     # X = f(X) next to the definition: the assignment is replaced by the new definition; a function definition stays stale
     "same-named-binding-replaced": {"rebinding-replaced", "interface"},
+    # a same-named class nested in an if / else / try body / with before a class target that differs from the truth: the
+    # stand-in is overwritten (C11), the named definition stays as it was (C09), and every later run overwrites the stand-in
+    # again with the same text and reports the file modified (C10) - not: bytes changing again, anything else lost
+    "same-named-definition-in-non-scope-statement-replaced": {"interface", "flag-true-bytes-same", "print-modified-bytes-same",
+                                                              "stand-in-replaced"},
+    # NAME = None above `def NAME`: sync raises AssertionError before anything is emitted for that target
+    "forward-declared-function-target-raises": {"raised"},
 }
 
 
@@ -74,6 +83,44 @@ def _rebinding(old, name):
     return first is not None and not isinstance(first, ast.ClassDef)
 
 
+def _standin_first(old, name):
+    """the first node, in the visit order of the rewrite, that carries the target's location and is not a FunctionDef (those
+    are never replaced) is a class definition nested in statements that open no scope (an if / else branch, a try body or
+    else, a with / for / while body) - not a statement of the target's own scope.  Dotted targets: never (a definition
+    nested that way inside the enclosing class has the location [name], not [class, name])."""
+    if old is None or "." in name:
+        return False
+    try:
+        tree = ast.parse(old)
+    except SyntaxError:
+        return False
+
+    def first(body, depth):
+        for s in body:
+            if (isinstance(s, ast.ClassDef) and s.name == name) or J.binds(s, name):
+                return s, depth
+            if isinstance(s, J.NON_SCOPE_STMTS):
+                for inner in J.non_scope_bodies(s):
+                    hit = first(inner, depth + 1)
+                    if hit is not None:
+                        return hit
+        return None
+    hit = first(tree.body, 0)
+    return hit is not None and hit[1] > 0 and isinstance(hit[0], ast.ClassDef)
+
+
+def _raised_before_emit(call):
+    """the call raised AssertionError after the file was read and parsed and before the emitter was entered"""
+    return bool(call.get("result") and call["result"][0] == "err" and call["result"][1] == "AssertionError"
+                and call.get("emit") is None and call.get("parse") == ("ok",))
+
+
+def obs2_of(call, name):
+    """the observations of SyncSpec2.call_obs2"""
+    return [obs_of(call, name), _standin_first(call["old"], name), call.get("found_type") in ("Assign", "AnnAssign"),
+            call["kind"] in ("function", "argparse_function"), _raised_before_emit(call)]
+
+
 def obs_of(call, name):
     return [call["old"] is not None, bool(call["found"]), bool(call["cmp"]), bool(call["replaced"]), _present(call["old"], name),
             _enclosing(call["old"], name), _rebinding(call["old"], name)]
@@ -94,12 +141,13 @@ def classify(res):
         name = scn["names"][kd]
         ce = next((c for c in ((res.get("edit") or {}).get("calls") or []) if c["file"].endswith("/" + fname)), None)
         whole = any(bool(c and c["found"] and not c["cmp"] and c["replaced"]) for c in (c0, c1, ce))
-        reqs.append(dumps([Sym("sync_class"), "." in name, obs_of(c0, name), opt(obs_of(c1, name) if c1 else None)]))
-        reqs.append(dumps([Sym("frame_class"), True, False, whole, "." in name, obs_of(c0, name), opt(obs_of(c1, name) if c1 else None)]))
-        reqs.append(dumps([Sym("frame_class"), False, True, whole, "." in name, obs_of(c0, name), opt(obs_of(c1, name) if c1 else None)]))
-        reqs.append(dumps([Sym("install_class"), "." in name, obs_of(c0, name)]))
+        o0, o1 = obs2_of(c0, name), opt(obs2_of(c1, name) if c1 else None)
+        reqs.append(dumps([Sym("sync_class_r"), "." in name, o0, o1]))
+        reqs.append(dumps([Sym("frame_class_r"), True, False, whole, "." in name, o0, o1]))
+        reqs.append(dumps([Sym("frame_class_r"), False, True, whole, "." in name, o0, o1]))
+        reqs.append(dumps([Sym("install_class_r"), "." in name, o0]))
         # the run after the truth was edited is judged like a first run, on its own call
-        reqs.append(dumps([Sym("install_class"), "." in name, obs_of(ce if ce is not None else c0, name)]))
+        reqs.append(dumps([Sym("install_class_r"), "." in name, obs2_of(ce if ce is not None else c0, name)]))
         keys.append(k)
     out = {}
     if reqs:
@@ -111,6 +159,32 @@ def classify(res):
             out[(k, "repeat")] = None if e == "none" else unhx(e[1])
             out[(k, "module-docstring-only")] = None if e2 == "none" else unhx(e2[1])
             out[(k, "install")] = None if e3 == "none" else unhx(e3[1])
+    out.update(classify_raises(res))
+    return out
+
+
+def classify_raises(res):
+    """{("*raised*", run index | "edit"): (target key, class or None)}: a run that raised is judged on the recorded call that
+    raised (the last one of that run), by SyncSpec2.classify_raise_r"""
+    scn = res["scn"]
+    runs = [(i, calls) for i, calls in enumerate(res["calls"] or [])]
+    if (res.get("edit") or {}).get("calls") is not None:
+        runs.append(("edit", res["edit"]["calls"]))
+    keys, reqs = [], []
+    for i, calls in runs:
+        last = calls[-1] if calls else None
+        if last is None or not last.get("result") or last["result"][0] != "err":
+            continue
+        tk = next((k for k in scn["targets"] if last["file"].endswith("/" + res["paths"][k])), None)
+        if tk is None:
+            continue
+        keys.append((i, tk))
+        reqs.append(dumps([Sym("raise_class_r"), obs2_of(last, scn["names"][L.kind_of(tk)])]))
+    out = {}
+    if reqs:
+        for (i, tk), o in zip(keys, run_model(reqs)):
+            e = loads(o)
+            out[("*raised*", i)] = (tk, None if e == "none" else unhx(e[1]))
     return out
 
 
@@ -118,12 +192,22 @@ def evaluate(rng, tier, judge, n_quick=150, n_thorough=1500, runs=3, cli_share=0
     n = n_quick if tier == "quick" else n_thorough
     failures, hist, samples = [], collections.Counter(), []
     seen = set()
+    plans = []
     for i in range(n):
         # via: the command line in a child process | its entry point __main__.main(argv) called in-process (the same
         # argument handling, recorded) | conformance.ground_truth called directly
         r_via = rng.random()
         via = "cli" if r_via < cli_share else "main" if r_via < cli_share + main_share else "api"
-        scn = L.gen_scenario(rng, via=via, runs=runs)
+        plans.append((via, L.gen_scenario(rng, via=via, runs=runs)))
+    # the strata of the recorded findings whose shapes the generator draws only rarely (a same-named class in a statement
+    # that opens no scope before a class target that differs from the truth; a forward-declared function target): a few
+    # scenarios more (1 in 25), from a generator of their own so that the regular scenarios of a seed do not depend on them
+    krng = random.Random(rng.random())
+    for j in range(max(4, n // 25)):
+        r_via = krng.random()
+        via = "cli" if r_via < cli_share else "main" if r_via < cli_share + main_share else "api"
+        plans.append((via, L.gen_known_shape(krng, L.KNOWN_SHAPES[j % len(L.KNOWN_SHAPES)], via=via, runs=runs)))
+    for via, scn in plans:
         if via == "cli":
             # run through the command line for the judged behaviour, and once more through the API (same scenario,
             # fresh directory) to obtain the law instances for classification
@@ -140,6 +224,8 @@ def evaluate(rng, tier, judge, n_quick=150, n_thorough=1500, runs=3, cli_share=0
         key = dumps([scn["truth"], sorted(scn["given"]), sorted((k, v["pre"], v["position"]) for k, v in scn["targets"].items()),
                      "." in scn["names"]["function"]])
         hist["truth:%s" % scn["truth"]] += 1
+        if scn.get("known_shape"):
+            hist["recorded-finding-shape:%s" % scn["known_shape"]] += 1
         hist["via:%s" % via] += 1
         hist["given:%d" % len(scn["given"])] += 1
         for k, t in scn["targets"].items():
@@ -167,6 +253,12 @@ def evaluate(rng, tier, judge, n_quick=150, n_thorough=1500, runs=3, cli_share=0
             k = f["facts"]["kind"]
             if not truth_found:
                 cls = "truth-definition-not-found"
+            elif f["kind"] == "raised":
+                # sync raised: judged on the call that raised in that run (none recorded = raised outside every call)
+                tk, c = classes.get(("*raised*", "edit" if f.get("phase") == "edit" else f["facts"].get("run", 0)), (None, None))
+                cls = c if c is not None and "raised" in ABSORBS.get(c, ()) else None
+                if tk is not None:
+                    f = dict(f, what="%s (in the call for target %s)" % (f["what"], tk))
             elif f["kind"] in ("module-docstring-only", "docstrings-only") and (k, f["kind"]) in classes:
                 cls = classes[(k, f["kind"])]
             elif (k, "install") in classes:
@@ -187,10 +279,12 @@ def evaluate(rng, tier, judge, n_quick=150, n_thorough=1500, runs=3, cli_share=0
                 cls = None
             hist["fail:%s" % (cls or "UNCLASSIFIED")] += 1
             failures.append({"case": {"scenario": scn, "target": f["target"]}, "what": f["what"], "class": cls})
-    return {"evaluations": n, "distinct_nontrivial": len(seen),
+    return {"evaluations": len(plans), "distinct_nontrivial": len(seen),
             "rule": "generated sync scenarios (truth kind x kinds given x target pre-state x placement x method/function x "
                     "API / command line / its entry point in-process; a second file of the truth's kind, file names of their own, "
-                    "option order, same-named stand-ins and forward declarations, receiver and parameter style, carried bodies); "
+                    "option order, same-named stand-ins (in except handlers; rarely in statements that open no scope) and forward "
+                    "declarations (of class targets; rarely of function targets), receiver and parameter style, carried bodies; "
+                    "plus 1 in 25 scenarios more that carry the shape of a recorded finding); "
                     "non-trivial = distinct scenario shape with at least one target on which the property held",
             "failures": failures, "histogram": dict(hist), "samples": samples}
 
